@@ -151,8 +151,20 @@ def ensure_facts(config='dev', verbose=True):
                            'extract_s': round(time.time() - t0, 1), 'root': root}, fh)
             # prune older entries of this config (keep 3 most recent)
             base = os.path.join(CACHE, 'facts', config)
-            ents = sorted((os.path.getmtime(os.path.join(base, e)), e) for e in os.listdir(base))
-            for _, e in ents[:-3]:
+            ents = []
+            for e in os.listdir(base):
+                d = os.path.join(base, e, 'DONE.json')
+                is_repo = False
+                try:
+                    with open(d) as fh2:
+                        is_repo = json.load(fh2).get('root') == '/repo'
+                except (OSError, ValueError):
+                    pass
+                ents.append((os.path.getmtime(os.path.join(base, e)), e, is_repo))
+            ents.sort()
+            scratch = [x for x in ents if not x[2]]
+            repo = [x for x in ents if x[2]]
+            for _, e, _r in scratch[:-3] + repo[:-3]:
                 shutil.rmtree(os.path.join(base, e), ignore_errors=True)
         with open(done) as fh:
             info = json.load(fh)
